@@ -1,5 +1,6 @@
 //! dvh — deltio verification harness. Drives the real implementation (path dependency on
 //! /repo, hooks enabled) with the same line protocol the Lean model driver reads.
+mod conc;
 mod pure;
 mod seq;
 mod util;
@@ -26,7 +27,7 @@ fn runtime(seed: u64) -> tokio::runtime::Runtime {
 fn main() {
     let args = std::env::args().collect::<Vec<_>>();
     if args.len() < 3 {
-        eprintln!("usage: dvh <pure|seq> <ops-file|-> [side-file]");
+        eprintln!("usage: dvh <pure|seq|conc> <ops-file|-> [side-file] [trace-file]");
         std::process::exit(2);
     }
     let default_hook = std::panic::take_hook();
@@ -56,6 +57,19 @@ fn main() {
                 out.push('\n');
                 side.push_str(&s);
                 side.push('\n');
+            }
+        }
+        "conc" => {
+            let rt = runtime(seed);
+            let (res, trace) = rt.block_on(conc::run(&input));
+            for (m, s) in res {
+                out.push_str(&m);
+                out.push('\n');
+                side.push_str(&s);
+                side.push('\n');
+            }
+            if args.len() > 4 {
+                std::fs::write(&args[4], trace.join("\n") + "\n").unwrap();
             }
         }
         _ => {
